@@ -1,7 +1,7 @@
 (* C02 - one owner per nickname; a connection only ever acts as itself.  Statements only;
    proofs in IRCP.InvStep / IRCP.Reach. *)
 From IRC Require Import Str Wild Glob Parse Reply State Handlers Step.
-From IRCP Require Import InvDefs InvStep Reach.
+From IRCP Require Import InvDefs InvStep Reach ConcP.
 From stdpp Require Import gmap.
 
 Section C02.
@@ -41,9 +41,32 @@ Theorem C02_unregistered_inert : forall w i c e w' o cl, Inv w -> conns w !! i =
     users (sh w) !! nick = None /\ users (sh w') = <[nick := u]> (users (sh w)) /\ u_conn u = i.
 Proof. exact (unregistered_inert cfg verify). Qed.
 
+(* schedules and faults: a KILL only marks its victim; the victim's own task tears the session down when it
+   gets to run - possibly much later (a task stuck writing to a client that does not read), possibly never.
+   For EVERY sequence of events processed without delivering pending KILLs, interleaved with the moments
+   [LDeliver j] at which connection j's task ends: no abort, every nick has exactly one owner - a live
+   registered connection carrying that nick - and every registered connection owns the record under its nick
+   (so a killed connection that has not yet noticed still holds its nick and a newcomer is refused) *)
+Theorem C02_deferred_kill_ownership : forall xs,
+  exists w, lazy_run cfg verify (world_init cfg) xs = Ok w /\
+    (forall n u, users (sh w) !! n = Some u ->
+       exists c, conns w !! u_conn u = Some c /\ c_auth c = true /\ c_nick c = Some n) /\
+    (forall i c, conns w !! i = Some c -> c_auth c = true ->
+       exists n u, c_nick c = Some n /\ users (sh w) !! n = Some u /\ u_conn u = i).
+Proof. exact (deferred_kill_ownership cfg verify). Qed.
+
+(* ... and the late end of a connection removes the record it owns and nobody else's *)
+Theorem C02_late_teardown_own_only : forall w j c w', InvK w -> conns w !! j = Some c ->
+  lazy_step cfg verify w (LDeliver j) = Ok w' ->
+  (forall n u, users (sh w') !! n = Some u -> users (sh w) !! n = Some u /\ u_conn u <> j) /\
+  (forall n u, users (sh w) !! n = Some u -> u_conn u <> j -> users (sh w') !! n = Some u).
+Proof. exact (late_teardown_own_only cfg verify). Qed.
+
 End C02.
 
 Print Assumptions C02_one_owner.
 Print Assumptions C02_connection_owns.
 Print Assumptions C02_acts_only_as_itself.
 Print Assumptions C02_unregistered_inert.
+Print Assumptions C02_deferred_kill_ownership.
+Print Assumptions C02_late_teardown_own_only.
